@@ -97,6 +97,15 @@ def run(ck: Checker):
         lf = linear_form(cap, f) if cap is not None else None
         ok = lf is not None and lf[:3] == (2, 0, 'concurrency')
         ck.ob('C08-3', f, calls[0], ok, 'fifo capacity = 2*concurrency' if ok else f'fifo capacity `{norm_text(cap) if cap is not None else "default"}` = {lf[:3] if lf else "?"}, not 2*concurrency')
+    # the parmappers read their source directly: an extra buffering stage in front of the fifo function adds its own look-ahead
+    for rel, cname, itname in ((STREAMER, 'Parmapper', '__iter__'), (STREAMER_ASYNC, 'AsyncParmapper', '__aiter__'), (STREAMER, 'ParmapperAsync', '__iter__'), (STREAMER_ASYNC, 'AsyncParmapperAsync', '__aiter__')):
+        f = ck.repo.cls(rel, cname).method(itname)
+        calls = [n for n in walk_deep_func(f.node) if isinstance(n, ast.Call) and (dotted(n.func) or '') in ('fifo_stream', 'async_fifo_stream')]
+        if not calls:
+            continue
+        a0 = calls[0].args[0] if calls[0].args else kwarg(calls[0], 'instream')
+        ok0 = a0 is not None and dotted(a0) == 'self._instream'
+        ck.ob('C08-3', f, calls[0], ok0, 'the fifo function reads `self._instream` itself' if ok0 else f'the fifo function reads `{norm_text(a0)[:50] if a0 is not None else "?"}`, not the source itself: a stage in between (a buffer) pulls ahead on its own account and the documented bound capacity+3 no longer holds')
     # the async-worker parmappers hand a capacity to the same fifo functions: 2*concurrency as well (a capacity that can
     # reach -1 makes the hand-off queue `maxsize=0`, which both queue kinds read as unbounded)
     for rel, cname, itname in ((STREAMER, 'ParmapperAsync', '__iter__'), (STREAMER_ASYNC, 'AsyncParmapperAsync', '__aiter__')):
@@ -107,6 +116,15 @@ def run(ck: Checker):
         lf = linear_form(cap, f) if cap is not None else None
         ok = lf is not None and lf[:3] == (2, 0, 'concurrency')
         ck.ob('C08-3', f, calls[0], ok, 'fifo capacity = 2*concurrency' if ok else f'fifo capacity `{norm_text(cap) if cap is not None else "default"}` = {lf[:3] if lf else "not one linear form of concurrency (several definitions, or a conditional)"}, not 2*concurrency: for a small explicit `concurrency` the hand-off queue is created with maxsize <= 0, i.e. unbounded — the whole source is pulled at once')
+    # the worker function of AsyncParmapper runs on the pool sized by `concurrency`, nowhere else: the loop's default executor
+    # (run_in_executor(None, ...)) is used only to wait for a future of that pool, never to run the worker itself
+    apf = ck.repo.func(STREAMER_ASYNC, 'AsyncParmapper.__aiter__.func')
+    badrun = []
+    for c_ in [x for x in ast.walk(apf.node) if isinstance(x, ast.Call) and method_of(x)[1] == 'run_in_executor']:
+        for a_ in c_.args[1:]:
+            if any(isinstance(x, ast.Attribute) and dotted(x) == 'self._func' for x in ast.walk(a_)):
+                badrun.append(c_)
+    ck.ob('C08-3', apf, badrun[0] if badrun else apf.node, not badrun, 'the worker function is submitted to the pool created with max_workers = concurrency' if not badrun else f'L{badrun[0].lineno}: `{norm_text(badrun[0])[:70]}` runs the worker function on the event loop\'s default executor, which is not sized by `concurrency`: up to the look-ahead window of calls run at once')
     # -------------------------------------------------------------------- C08-4
     for rel, q in ((STREAMER, 'ParmapperAsync.__iter__.func'), (STREAMER_ASYNC, 'AsyncParmapperAsync.__aiter__.func')):
         f = ck.repo.func(rel, q)
